@@ -91,6 +91,17 @@ CHECKS = {
              "tool does not parse (assemblies nested two levels) must be byte-identical",
         technique="bounded-exhaustive enumeration of input documents x configurations with an independent "
                   "reader as oracle"),
+    "C17": dict(
+        level="exploration", engine="E1+E7", ref="DESIGN.md section 4 C17",
+        text="(A) every block of a zero-producing family (pushed, folded, rule results, prefix tree containing PUSH 0) "
+             "x PUSH0 on/off x three criteria through optimize+compare: no PUSH0 emitted while disabled, a single "
+             "PUSH0 spelling while enabled, and the sizes/gas reported for input and output sub-blocks equal "
+             "independent figures under the same spelling rule; (B) 2-3 contract documents x every -c selection "
+             "against the single-contract run, statistics/log restricted to the selection, unknown name is an error",
+        note="gas recomputation is restricted to sub-blocks without access-priced instructions; trusted base "
+             "mc/asm_ref.py",
+        technique="bounded-exhaustive enumeration of programs x configurations with independent accounting and a "
+                  "differential (single-contract) oracle"),
 }
 
 NOT_YET = "check not built yet in this session (planned in DESIGN.md section 4); nothing is claimed for it"
